@@ -22,6 +22,10 @@ pub trait Sc: Sized + Clone + Debug + PartialEq + Send + Sync + 'static {
     fn canonical(&self) -> Result<(), String> { Ok(()) }
     /// a safe magnitude bound (bits) for generated operands of machine types
     fn operand_bits() -> u32 { 300 }
+    /// the same ring element built through a public constructor from a *non-canonical* description chosen by `twist`
+    /// (F_p: the residue shifted by twist * p, negative included; Q: numerator and denominator both multiplied by twist,
+    /// so a negative twist gives a negative denominator).  Default: the canonical route.  None if not representable.
+    fn from_twisted(v: &RV, _twist: i64) -> Option<Self> { Self::from_rv(v) }
 }
 
 pub trait IntSc: Sc {
@@ -66,6 +70,10 @@ where I: IntSc + yui::Integer, for<'x> &'x I: yui::IntOps<I> {
     fn from_rv(v: &RV) -> Option<Self> {
         match v { RV::Q(x) => Some(Ratio::new(I::from_big(x.numer())?, I::from_big(x.denom())?)), _ => None }
     }
+    fn from_twisted(v: &RV, twist: i64) -> Option<Self> {
+        let t = BigInt::from(if twist == 0 { 1 } else { twist });
+        match v { RV::Q(x) => Some(Ratio::new(I::from_big(&(x.numer() * &t))?, I::from_big(&(x.denom() * &t))?)), _ => None }
+    }
     fn to_rv(&self) -> RV {
         let (n, d) = (self.numer().to_big(), self.denom().to_big());
         if d.is_zero() { panic!("Ratio with zero denominator: {:?}", self) }
@@ -86,6 +94,7 @@ impl Sc for FF2 {
     fn rk() -> RK { RK::F(2) }
     fn machine() -> bool { false }
     fn from_rv(v: &RV) -> Option<Self> { match v { RV::F(x) => Some(FF2::from(*x as i64)), _ => None } }
+    fn from_twisted(v: &RV, twist: i64) -> Option<Self> { match v { RV::F(x) => Some(FF2::from(*x as i64 + 2 * (twist % 1_000_000))), _ => None } }
     fn to_rv(&self) -> RV { RV::F(if self.is_zero() { 0 } else { 1 }) }
 }
 
@@ -93,6 +102,12 @@ impl<const P: i32> Sc for FF<P> {
     fn rk() -> RK { RK::F(P as u64) }
     fn machine() -> bool { false }
     fn from_rv(v: &RV) -> Option<Self> { match v { RV::F(x) => Some(FF::<P>::new(*x as i32)), _ => None } }
+    fn from_twisted(v: &RV, twist: i64) -> Option<Self> {
+        let RV::F(x) = v else { return None };
+        let a = *x as i64 + (P as i64) * (twist % 100_000);
+        if a.abs() > i32::MAX as i64 / 2 { return None }
+        Some(if twist % 2 == 0 { FF::<P>::new(a as i32) } else { FF::<P>::from(a as i32) })
+    }
     fn to_rv(&self) -> RV {
         let r = *self.rep();
         RV::F(r.rem_euclid(P) as u64)
